@@ -120,10 +120,10 @@ package retriever
 //@   nomod
 //@   ensures validated: result.1 == nil ==> phasesValid(result.0)
 //@ func manifestFileCount(value Manifest) int
-//@   opaque
+//@   nosafety
 //@   nomod
 //@ func manifestFragmentBytes(value Manifest) (int64, int64)
-//@   opaque
+//@   nosafety
 //@   nomod
 //@ func assertManifestSchemas(ctx context.Context, db graph.Database, value Manifest) error
 //@   opaque
@@ -189,8 +189,16 @@ package retriever
 
 // requireEmptyLoadTargets hands the real counter to the function above; that the real counter meets the fparam
 // contract (it counts the nodes and relationships of the named graph in the target database) is trusted.
-//@ func requireEmptyLoadTargets(ctx context.Context, db graph.Database, graphEntries []GraphManifest) error
+// the real counter (database reads): trusted to meet the contract requireEmptyLoadTargetsWithCounter asks of its
+// counter parameter - it counts the nodes and relationships of the named graph in the target database
+//@ func countGraphEntitySnapshot(ctx context.Context, db graph.Database, targetGraph graph.Graph) (graphEntitySnapshot, error)
 //@   opaque
+//@   modifies graphSeenEmpty[targetGraph.Name]
+//@   ensures result.0.NodeCount >= 0 && result.0.EdgeCount >= 0
+//@   ensures result.1 == nil && result.0.NodeCount == 0 && result.0.EdgeCount == 0 ==> graphSeenEmpty[targetGraph.Name]
+//@   ensures !(result.1 == nil && result.0.NodeCount == 0 && result.0.EdgeCount == 0) ==> graphSeenEmpty[targetGraph.Name] == old(graphSeenEmpty[targetGraph.Name])
+//@ func requireEmptyLoadTargets(ctx context.Context, db graph.Database, graphEntries []GraphManifest) error
+//@   nosafety
 //@   modifies all(ghost:g.graphSeenEmpty)
 //@   ensures allEmpty: result == nil ==> (forall i int :: {:pattern graphEntries[i].Name} 0 <= i && i < len(graphEntries) ==> graphSeenEmpty[graphEntries[i].Name])
 //@ func loadManifestGraph(ctx context.Context, db graph.Database, options LoadOptions, codec CompressionCodec, graphIndex int, graphCount int, graphEntry GraphManifest) (int64, int64, error)
@@ -281,8 +289,14 @@ package retriever
 // scoping guarantees; os.Remove is assumed to succeed (its error is ignored by the code).
 //@ ghost comp closedOK bool
 //@ func cloneActionCounts(source map[string]int) map[string]int
-//@   opaque
+//@   nosafety
 //@   nomod
+//@   ensures copy: result != nil && result != source && (forall k string :: (k in result) == (k in source)) && (forall k string :: k in source ==> result[k] == source[k])
+//@   loop 0
+//@     invariant target != nil && fresh(target) && target != source
+//@     invariant soFar: forall k string :: (k in target) == (k in visited)
+//@     invariant values: forall k string :: k in visited ==> target[k] == source[k]
+//@     invariant sub: forall k string :: k in visited ==> k in source
 //@ func (s scrubActionCounts) mapValue() map[string]int
 //@   opaque
 //@   nomod
@@ -331,7 +345,7 @@ package retriever
 // manifest has been published under its final name. removeDumpCheckpoint requires that; Dump is verified to call it
 // only on the path where writeManifest returned nil (and writeManifest's own contract says what that means).
 //@ func removeDumpCheckpoint(outputDir string) error
-//@   opaque
+//@   nosafety
 //@   requires manifestFirst: fileComplete[joinPath(outputDir, manifestFileName)]
 //@   modifies fileComplete[joinPath(outputDir, dumpCheckpointFileName)]
 //@ func Dump(ctx context.Context, db graph.Database, driverName string, targets []GraphTarget, options DumpOptions) (DumpResult, error)
